@@ -18,13 +18,19 @@ theorem C20_lock_unwind_releases {en cap : Bool} {s s' : St} {t : Tid} (h : Reac
   subst hs
   exact ⟨hn, hn, by simp [St.setPc, St.setLoc]⟩
 
-/-- A throw can only happen inside the bracket, and the bracket can be closed after it in every
-state in which the wrapped object has not been written by the operation. -/
+/-- A throw happens either in the call itself before any lock operation (user code that builds a by-value
+parameter: nothing is held, nothing was touched, the thread goes straight to the exceptional exit), or inside
+the bracket, and the bracket can be closed after it in every state in which the wrapped object has not been
+written by the operation. -/
 theorem C20_lock_throw_inside {s s' : St} {t : Tid} (hs : step s t .uth = some s') :
+    (∃ w, (s.loc t).pc = .wCalled w ∧ (s'.loc t).pc = .wExc ∧ s'.val = s.val ∧ s'.excl = s.excl ∧
+      s'.shared = s.shared ∧ s'.held = s.held) ∨
     ∃ w m a b c, (s.loc t).pc = .whole w m a b c ∧ (s'.loc t).pc = .whole w m a b true := by
   cases hp : (s.loc t).pc <;> simp [step, hp] at hs
-  subst hs
-  exact ⟨_, _, _, _, _, rfl, by simp [St.setPc, St.setLoc]⟩
+  · subst hs
+    exact .inl ⟨_, rfl, by simp [St.setPc, St.setLoc], rfl, rfl, rfl, rfl⟩
+  · subst hs
+    exact .inr ⟨_, _, _, _, _, rfl, by simp [St.setPc, St.setLoc]⟩
 
 /-- Not half-modified: an operation that ends with an exception has not written the wrapped object
 (the model accepts the closing release after a throw only then), so the value other threads see
@@ -61,5 +67,9 @@ example : ∃ s, Reachable true false s ∧ s.val = 0 ∧ s.excl = none ∧ (s.l
   ⟨_, ⟨[(1, .callW (.st 5)), (1, .lk .X .block true), (1, .uth), (1, .rel .X), (1, .exc),
         (2, .callW .ld), (2, .lk .X .block true), (2, .rd 0), (2, .rel .X)], rfl⟩,
    by decide, by decide, by decide, by decide⟩
+
+/-- the early throw: `exchange(lvalue)` whose parameter copy throws before the lock is taken (thread 1) -/
+example : ∃ s, Reachable true false s ∧ s.val = 0 ∧ s.excl = none ∧ (s.loc 1).pc = .idle :=
+  ⟨_, ⟨[(1, .callW (.xc 5)), (1, .uth), (1, .exc)], rfl⟩, by decide, by decide, by decide⟩
 
 end ConcVerif.LockFam
